@@ -36,6 +36,7 @@ Inductive pyval :=
 | PList (l : list pyval)            (* list or tuple *)
 | PCInst (ck cw : Z) (raw : list Z) (* instance of a simple ctypes type (kind, width) *)
 | PStruct (cls : Z) (raw : list Z)  (* instance of message struct class cls *)
+| PCArr (ck cw : Z) (n : nat) (raw : list Z)          (* instance of a ctypes array type (ctype * n), e.g. (c_uint8*4)(..) *)
 | PArr (e : elem) (n : nat) (raw : list Z)            (* array field bound to some message *)
 | PSArr (cls : Z) (esz n : nat) (raw : list Z).       (* struct-array field bound to some message *)
 
@@ -243,12 +244,19 @@ Definition elem_load (e : elem) (bs : list Z) : pyval :=
   | EByte _ => PBytes bs                  (* ByteArray.__getitem__(i) is a bytearray of length 1 *)
   end.
 
+(* element of a ctypes array as the Python object that iteration / indexing yields *)
+Definition carr_elem (ck cw : Z) (bs : list Z) : pyval :=
+  if ck <=? 1 then PInt (load_int (ck =? 0) bs)
+  else if ck =? 2 then PFloat (if cw =? 4 then widen_bits (le_decode bs) else le_decode bs)
+  else PBytes bs.
+
 (* iteration / len+getitem of a value (None: not iterable, no __getitem__) *)
 Definition iter_items (v : pyval) : option (list pyval) :=
   match v with
   | PList l => Some l
   | PBytes bs => Some (map PInt bs)
   | PStr cs => Some (map (fun c => PStr [c]) cs)
+  | PCArr ck cw n raw => Some (map (carr_elem ck cw) (chunks (Z.to_nat cw) n raw))
   | PArr e n raw => Some (map (elem_load e) (chunks (elem_size e) n raw))
   | PSArr cls esz n raw => Some (map (PStruct cls) (chunks esz n raw))
   | _ => None
@@ -384,6 +392,9 @@ Definition sarr_setitem (enabled : bool) (cls : Z) (esz n off : nat) (m : list Z
   | None => carr_assign (cstore_struct cls esz) esz n off m k v
   end.
 
+Definition is_chararr (n : nat) (v : pyval) : bool :=
+  match v with PCArr ck cw n' _ => (ck =? 3) && (cw =? 1) && (n' =? n)%nat | _ => false end.
+
 Definition ok_or (m : list Z) (off : nat) (r : exn + list Z) : outcome :=
   match r with inl e => (Some e, m) | inr bs => (None, splice m off bs) end.
 
@@ -448,6 +459,8 @@ Definition set (enabled : bool) (f : field) (k : key) (m : list Z) (v : pyval) :
   | TString n =>
       match k with
       | KAttr =>
+          (* an instance of the field's own c_char array type skips validation; ctypes then wants bytes *)
+          if is_chararr n v then (Some ETypeError, m) else
           match (if enabled then string_validate_one n v else None) with
           | Some x => (Some x, m)
           | None => match encode_ascii v with
